@@ -4,6 +4,7 @@ import (
 	"go/ast"
 	"go/token"
 	"go/types"
+	"strings"
 
 	"verifcheck/core"
 )
@@ -108,6 +109,63 @@ func runC08(c *Ctx) {
 						}
 					}
 				}
+				if !ok2 && nres != nil && sizeParam != nil {
+					// merged error exits: `if err == nil && n < size { err = <sentinel> }; if err != nil { … return err }`.
+					// On the success path err is nil at the second test; every other assignment to err stores a
+					// non-nil error, so err was nil at the first test too and its false edge means n >= size.
+					ev := core.ResultVar(info, cp.Top, cp.Node.(*ast.CallExpr), -1)
+					if ev != nil {
+						for _, cb1 := range g.CondBlocks() {
+							be, isB := ast.Unparen(cb1.Cond).(*ast.BinaryExpr)
+							if !isB || be.Op != token.LAND || !g.Dominates(g.CondLoc(cb1.B), ex.Loc) {
+								continue
+							}
+							nilSide, cmpSide := false, false
+							for _, side := range []ast.Expr{be.X, be.Y} {
+								if x, eq, isNil := core.IsNilCheck(info, side); isNil && eq && core.UsesObj(info, x, ev) {
+									nilSide = true
+								}
+								if cb, isC := ast.Unparen(side).(*ast.BinaryExpr); isC {
+									_, y, op, okO := core.Orient(cb, func(e ast.Expr) bool { return core.UsesObj(info, e, nres) })
+									if okO && core.UsesObj(info, y, sizeParam) && op == token.LSS {
+										cmpSide = true
+									}
+								}
+							}
+							if !nilSide || !cmpSide {
+								continue
+							}
+							// the only other assignment to err: a non-nil error, on the true edge of that test
+							var store *core.Hit
+							others := 0
+							for _, as := range g.AssignsTo(ev) {
+								if as.Top == cp.Top || !g.Reaches(cp.Loc, as.Loc) {
+									continue // the copy's own definition, or an earlier use of the variable
+								}
+								others++
+								as := as
+								if a, isA := as.Node.(*ast.AssignStmt); isA && len(a.Rhs) == 1 && definitelyNonNilError(info, a.Rhs[0]) && g.Dominates(core.StartOf(cb1.B.Succs[0]), as.Loc) {
+									store = &as
+								}
+							}
+							if others != 1 || store == nil {
+								continue
+							}
+							// success lies on the nil edge of a later test of err that the store reaches
+							for _, cb2 := range g.CondBlocks() {
+								x, eq, isNil := core.IsNilCheck(info, cb2.Cond)
+								if !isNil || !core.UsesObj(info, x, ev) || !g.Dominates(g.CondLoc(cb2.B), ex.Loc) || !g.Reaches(store.Loc, g.CondLoc(cb2.B)) {
+									continue
+								}
+								for _, at := range g.AtomsAt(ex.Loc) {
+									if ax, aeq, aNil := core.IsNilCheck(info, at.Expr); aNil && core.UsesObj(info, ax, ev) && (aeq == at.Val) && eq == eq {
+										ok2 = true
+									}
+								}
+							}
+						}
+					}
+				}
 				closes := g.FindCalls("os.File.Close")
 				ok3 := false
 				for _, cl := range closes {
@@ -116,7 +174,7 @@ func runC08(c *Ctx) {
 					}
 				}
 				c.Check("C08-R2", key+" success-return", c.Pos(ex.Return), ok1 && ok2 && ok3,
-					"success must be behind io.Copy ok ("+why+"), the short-count test and a checked Close")
+					"success must be behind io.Copy ok ("+why+"), the short-count test and a checked Close (copy ok: "+boolStr(ok1)+", short-count test: "+boolStr(ok2)+", checked Close: "+boolStr(ok3)+")")
 			}
 			c.Expect("C08-R2", "success returns after the copy", nSucc, 1)
 		}
@@ -272,6 +330,12 @@ func runC08(c *Ctx) {
 			dig := core.ResultVar(info, sums[0].Top, sc, 1)
 			pc := puts[0].Node.(*ast.CallExpr)
 			ok := data != nil && dig != nil && len(pc.Args) == 3 && core.UsesObj(info, pc.Args[1], dig) && core.UsesObj(info, pc.Args[2], data)
+			if core.CalleeName(info, pc) == blobPkg+".DiskCache.Put" {
+				// PutBytes inlined: c.Put(d, bytes.NewReader(data), int64(len(data)))
+				ok = data != nil && dig != nil && len(pc.Args) == 3 && core.UsesObj(info, pc.Args[0], dig) &&
+					len(core.CallsTo(info, pc.Args[1], false, "bytes.NewReader", "strings.NewReader")) == 1 && core.UsesObj(info, pc.Args[1], data) &&
+					len(core.CallsTo(info, pc.Args[2], false, "builtin.len")) == 1 && core.UsesObj(info, pc.Args[2], data)
+			}
 			s, _ := g.OnSuccessOf(sums[0], puts[0].Loc)
 			c.Check("C08-R4", f.Key()+" call:PutBytes", c.Pos(pc), ok && s, "PutBytes must store the data and digest returned by the same successful readAndSum call")
 			// every success return after the put returns that digest, on the put's success edge
@@ -304,7 +368,24 @@ func runC08(c *Ctx) {
 				ok = s
 			}
 		}
-		c.Check("C08-R4", f.Key()+" hash-of-returned-bytes", c.Pos(f.Decl), ok, "readAndSum must hash exactly the bytes it returns (TeeReader into h, Sum after a successful ReadAll)")
+		if !ok && len(reads) == 1 {
+			// the other spelling: the digest is DigestFromBytes(<the bytes returned>), on ReadAll's success edge
+			dataV := core.ResultVar(info, reads[0].Top, reads[0].Node.(*ast.CallExpr), 0)
+			all, n := dataV != nil, 0
+			for _, ex := range g.Returns() {
+				if g.ReturnKind(ex) != core.RetSuccess || ex.Return == nil || len(ex.Return.Results) != 3 {
+					continue
+				}
+				n++
+				dfb := core.CallsTo(info, ex.Return.Results[1], false, blobPkg+".DigestFromBytes")
+				s, _ := g.OnSuccessOf(reads[0], ex.Loc)
+				if !(s && dataV != nil && isIdentOf(info, ex.Return.Results[0], dataV) && len(dfb) == 1 && len(dfb[0].Args) == 1 && isIdentOf(info, dfb[0].Args[0], dataV)) {
+					all = false
+				}
+			}
+			ok = all && n > 0
+		}
+		c.Check("C08-R4", f.Key()+" hash-of-returned-bytes", c.Pos(f.Decl), ok, "readAndSum must hash exactly the bytes it returns (TeeReader into h, Sum after a successful ReadAll — or DigestFromBytes of the returned slice)")
 	}
 	if f := c.Fn("C08-R4", blobPkg, "DiskCache.Import"); f != nil {
 		g := c.G(f)
@@ -431,6 +512,62 @@ func usesVarDerivedFromCallOn(g *core.Graph, cond ast.Expr, field *types.Var, me
 		return true
 	})
 	return found
+}
+
+// digestHelperCall: cond (negations stripped) is a call without arguments to a method of the
+// package whose body calls Sum on the hash field and whose single return compares with the digest
+// field; positive reports whether the helper returns true for a match.
+func digestHelperCall(c *Ctx, info *types.Info, cond ast.Expr, fD, fH *types.Var) (positive bool, ok bool) {
+	e := ast.Unparen(cond)
+	for {
+		u, isU := e.(*ast.UnaryExpr)
+		if !isU || u.Op != token.NOT {
+			break
+		}
+		e = ast.Unparen(u.X)
+	}
+	call, isC := e.(*ast.CallExpr)
+	if !isC || len(call.Args) != 0 {
+		return false, false
+	}
+	fo, _ := core.Callee(info, call).(*types.Func)
+	if fo == nil {
+		return false, false
+	}
+	var helper *core.Func
+	for _, f := range c.P.FuncsOf(blobPkg) {
+		if f.Obj != nil && f.Obj.FullName() == fo.FullName() {
+			helper = f
+		}
+	}
+	if helper == nil {
+		return false, false
+	}
+	sums := false
+	var rets []*ast.ReturnStmt
+	ast.Inspect(helper.Body, func(n ast.Node) bool {
+		switch x := n.(type) {
+		case *ast.CallExpr:
+			if se, isS := ast.Unparen(x.Fun).(*ast.SelectorExpr); isS && se.Sel.Name == "Sum" {
+				if p := core.PathOf(info, se.X); p.Valid() && p.Last() == fH {
+					sums = true
+				}
+			}
+		case *ast.ReturnStmt:
+			rets = append(rets, x)
+		}
+		return true
+	})
+	if !sums || len(rets) != 1 || len(rets[0].Results) != 1 || !core.UsesField(info, rets[0].Results[0], fD) {
+		return false, false
+	}
+	switch m := digestMatchEdge(rets[0].Results[0]); m {
+	case 0:
+		return true, true
+	case 1:
+		return false, true
+	}
+	return false, false
 }
 
 // digestMatchEdge: which successor (0=true,1=false) of cond means "digests are equal"; -1 unknown.
@@ -568,6 +705,7 @@ func ruleCheckWriter(c *Ctx, rule string) {
 			c.Check(rule, key+" write:w.w behind sticky-error", c.Pos(u.Node), okSticky, "underlying write must be on the nil edge of the sticky error test")
 			// (d) digest comparison guards the size-reaching write
 			var eqBlk, digBlk *core.CondBlock
+			helperNegated := false // the digest test is a helper that reports a mismatch
 			cbs := g.CondBlocks()
 			for i := range cbs {
 				cb := &cbs[i]
@@ -583,6 +721,9 @@ func ruleCheckWriter(c *Ctx, rule string) {
 				}
 				if core.UsesField(info, cb.Cond, fD) && (core.UsesField(info, cb.Cond, fH) || usesVarDerivedFromCallOn(g, cb.Cond, fH, "Sum")) {
 					digBlk = cb
+				} else if pos, isH := digestHelperCall(c, info, cb.Cond, fD, fH); isH {
+					digBlk = cb
+					helperNegated = !pos
 				}
 			}
 			if eqBlk == nil || digBlk == nil {
@@ -590,6 +731,9 @@ func ruleCheckWriter(c *Ctx, rule string) {
 			} else {
 				// mismatch edge: for `!bytes.Equal(..)` / `bytes.Equal` / `sum != d`: determine which successor is "match"
 				matchIdx := digestMatchEdge(digBlk.Cond)
+				if helperNegated && matchIdx >= 0 {
+					matchIdx = 1 - matchIdx
+				}
 				ok := matchIdx >= 0
 				detail := ""
 				if !ok {
@@ -691,4 +835,27 @@ func paramByType(f *core.Func, pred func(t types.Type) bool) types.Object {
 		}
 	}
 	return nil
+}
+
+// definitelyNonNilError: a sentinel error variable of another package (io.ErrUnexpectedEOF) or a
+// freshly built error.
+func definitelyNonNilError(info *types.Info, e ast.Expr) bool {
+	e = ast.Unparen(e)
+	if call, ok := e.(*ast.CallExpr); ok {
+		nm := core.CalleeName(info, call)
+		return nm == "errors.New" || nm == "fmt.Errorf"
+	}
+	var o types.Object
+	switch x := e.(type) {
+	case *ast.SelectorExpr:
+		o = info.Uses[x.Sel]
+	case *ast.Ident:
+		o = info.Uses[x]
+	}
+	v, ok := o.(*types.Var)
+	return ok && v.Pkg() != nil && v.Parent() == v.Pkg().Scope() && isErrorTypeP(v.Type()) && strings.HasPrefix(v.Name(), "Err")
+}
+
+func isErrorTypeP(t types.Type) bool {
+	return t != nil && types.Identical(t, types.Universe.Lookup("error").Type())
 }
